@@ -20,6 +20,9 @@
 using namespace uncrustify;
 
 
+size_t verif_sorting_cache_entries();   // sorting.cpp
+
+
 static FILE                                      *verif_fp   = nullptr;
 static bool                                      verif_init  = false;
 static int                                       verif_depth = 0;
@@ -163,6 +166,7 @@ void verif_dump_digest(const char *point)
            (cpd.bout != nullptr) ? cpd.bout->size() : 0,
            QT_SIGNAL_SLOT_found ? 1 : 0, QT_SIGNAL_SLOT_level, restoreValues ? 1 : 0,
            Chunk::GetHead()->IsNullChunk() ? 1 : 0);
+   fprintf(fp, " sort_cache=%zu", verif_sorting_cache_entries());
    fprintf(fp, " opt_hash=%llx opt_nondefault=%zu\n", hash, nondef);
    fflush(fp);
 } // verif_dump_digest
